@@ -186,8 +186,8 @@ def check_C07(tier, seed):
     o.assumptions = ['oracle is the library\'s own single-call form (one-shot function, or a fresh object driven by '
                      'one absorb and one squeeze); what function is computed is out of scope (C03/C04/C05 are N/A)',
                      'absorb-after-squeeze is not generated (no single-call form defines it)']
-    n = 40000 if tier == 'quick' else 600000
-    cfgs = [('asm', 'rel')] if tier == 'quick' else [('asm', 'rel'), ('c64', 'rel'), ('c32', 'rel'), ('gen', 'rel')]
+    n = 60000 if tier == 'quick' else 600000
+    cfgs = [('asm', 'rel'), ('c64', 'rel'), ('c32', 'rel'), ('dxor', 'rel'), ('gen', 'rel')]
     for i, (be, fl) in enumerate(cfgs):
         exe = world_exe('stream', be, (4, 2, 4), fl)
         o.add(D.run_batch(exe, n if i == 0 else n // 4, tier, seed, label='stream@%s-%s' % (be, fl), crash_prop='C12'))
@@ -210,10 +210,11 @@ def check_C02(tier, seed):
                      'passed or publicly readable; the C++ wrappers are judged under C14/C17',
                      'wipe-on-failure is demanded for one-shot decrypts with clen >= 16 only, as the property states']
     n = 60000 if tier == 'quick' else 1500000
-    cfgs = [('asm', (4, 2, 4))] if tier == 'quick' else [('asm', (4, 2, 4)), ('c64', (4, 2, 4)), ('c32', (3, 3, 3)), ('gen', (2, 1, 2))]
+    cfgs = [('asm', (4, 2, 4)), ('c64', (4, 2, 4)), ('c32', (4, 2, 4)), ('dxor', (4, 2, 4)), ('gen', (4, 2, 4))] if tier == 'quick' else \
+           [('asm', (4, 2, 4)), ('c64', (4, 2, 4)), ('c32', (4, 2, 4)), ('dxor', (4, 2, 4)), ('gen', (4, 2, 4)), ('c32', (3, 3, 3)), ('c64', (2, 1, 2)), ('asm', (4, 4, 4))]
     for i, (be, sh) in enumerate(cfgs):
         exe = world_exe('channel', be, sh, 'rel')
-        o.add(D.run_batch(exe, n if i == 0 else n // 5, tier, seed, label='channel@%s-%d%d%d' % (be, *sh), crash_prop='C12'))
+        o.add(D.run_batch(exe, n if i == 0 else n // 4, tier, seed, label='channel@%s-%d%d%d' % (be, *sh), crash_prop='C12'))
     o.extra['distinct_states_measure'] = 'visited (event kind, family class, fault kind, accept/reject, length class) tuples'
     return o.finish()
 
@@ -226,7 +227,7 @@ def check_C14(tier, seed):
                      'C++ objects are keyed by default construction + set_key(full length); an object whose first packet under '
                      'an explicit 16-byte nonce is already wrong is not judged here (that is C17 matter)']
     n = 60000 if tier == 'quick' else 1500000
-    cfgs = [('asm', (4, 2, 4))] if tier == 'quick' else [('asm', (4, 2, 4)), ('c64', (4, 2, 4)), ('gen', (2, 1, 2))]
+    cfgs = [('asm', (4, 2, 4)), ('c32', (4, 2, 4)), ('gen', (4, 2, 4))] if tier == 'quick' else [('asm', (4, 2, 4)), ('c64', (4, 2, 4)), ('c32', (4, 2, 4)), ('dxor', (4, 2, 4)), ('gen', (4, 2, 4))]
     for i, (be, sh) in enumerate(cfgs):
         exe = world_exe('channel', be, sh, 'rel')
         o.add(D.run_batch(exe, n if i == 0 else n // 5, tier, seed, label='channel@%s-%d%d%d' % (be, *sh), crash_prop='C12'))
